@@ -328,10 +328,9 @@ def judge(case, pred, r):
                          "%s is deactivated (version timestamps %s%s) and resolved with metadata %s: version %s with %d key(s)"
                          % (r["did"], case.get("hist"), ", ahead of the clock: " + case["ahead"] if case.get("ahead", "none") != "none" else "",
                             case["meta"], "fetched from the network" if reqs else r.get("doc_version"), r.get("doc_vms", -1))))
-        if case["local"] == "deactivated" and r["resolved"] and not r.get("meta_deactivated") and clock != "written-ahead-of-resolver-clock":
+        if case["local"] == "deactivated" and r["resolved"] and not r.get("meta_deactivated"):
             notes.append(("deact-meta", "%s is deactivated (timestamps %s) and resolved with AllowDeactivated, document metadata says deactivated=false" % (r["did"], case.get("hist"))))
-        if case["local"] == "active" and r["resolved"] and r.get("doc_version") is not None and r["doc_version"] != len(case.get("hist") or [0]) - 1 \
-                and case.get("ahead", "none") == "none":
+        if case["local"] == "active" and r["resolved"] and r.get("doc_version") is not None and r["doc_version"] != len(case.get("hist") or [0]) - 1:
             drift.append("managed active DID with version timestamps %s resolved to version %s, not to the last one" % (case.get("hist"), r["doc_version"]))
         if pred and (pred["outcome"] == "doc") != bool(r["resolved"]):
             drift.append("managed %s meta=%s: model predicts %s, code %s (%s)" % (case["local"], case["meta"], pred["outcome"],
